@@ -27,6 +27,9 @@ theorem addDyn_jsonRep (s s' : PyVal) (variant arch nevra : Str) (path sigkey ca
   by_cases c3 : (!Gen.SUPPORTED_CATEGORIES.contains cat) = true
   · rw [if_pos c3] at h; cases h
   rw [if_neg c3] at h
+  by_cases c4 : (!path.truthy) = true
+  · rw [if_pos c4] at h; cases h
+  rw [if_neg c4] at h
   cases path <;> try (cases h; done)
   rename_i p
   dsimp only at h
